@@ -111,6 +111,21 @@ type Gen struct {
 	down  map[int]bool
 	// gas observed per message mix (for gas starvation draws)
 	simTime int64
+	// ghosts: actors that named an identifier inside the transaction that was to create it
+	// (register-and-use). If that transaction is rolled back or was only simulated, the identifier
+	// goes to the next registrant, and the "ghost" is the party best placed to profit from anything
+	// that remembered the discarded branch: later non-owner attempts are biased towards it.
+	ghosts map[string]map[uint64]int
+}
+
+func (g *Gen) addGhost(kind string, id uint64, actor int) {
+	if g.ghosts == nil {
+		g.ghosts = map[string]map[uint64]int{}
+	}
+	if g.ghosts[kind] == nil {
+		g.ghosts[kind] = map[uint64]int{}
+	}
+	g.ghosts[kind][id] = actor
 }
 
 func pick[T any](r *rand.Rand, xs []T) T { return xs[r.Intn(len(xs))] }
@@ -219,6 +234,9 @@ func NewRun(prop string, seed int64, tier string) (*Trace, *Gen) {
 			cfg.MinGasPrices = "0.001nund"
 		}
 		cfg.Mempool = g.pct(50)
+		if prop == "C01" && (tier == "thorough" && g.pct(25) || tier != "thorough" && g.pct(6)) {
+			cfg.Backend = "goleveldb"
+		}
 		k.Nodes = append(k.Nodes, cfg)
 	}
 	k.RefMempool = g.pct(40)
@@ -777,10 +795,26 @@ func (g *Gen) regMsg(w *World, kind string) MsgSpec {
 		return MsgSpec{T: "bcn.register", A: owner, S: []string{g.regStr(64), g.regStr(128)}}
 	}
 	id := pick(g.R, ids)
+	if gh := g.ghosts[kind]; len(gh) > 0 && g.pct(25) {
+		// prefer a registration whose identifier was once named in a discarded branch
+		var cand []uint64
+		for _, i := range ids {
+			if _, ok := gh[i]; ok {
+				cand = append(cand, i)
+			}
+		}
+		if len(cand) > 0 {
+			id = pick(g.R, cand)
+		}
+	}
 	reg := rm.Regs[id]
 	owner := g.actorByAddr(w, reg.Owner)
 	if g.pct(10) {
 		owner = g.actor()
+	}
+	if a, ok := g.ghosts[kind][id]; ok && g.pct(35) {
+		owner = a
+		w.Fault("auth.ghost_owner")
 	}
 	if g.pct(4) {
 		id = pick(g.R, []uint64{0, rm.NextID, rm.NextID + 7, ^uint64(0)})
@@ -1173,6 +1207,13 @@ func (g *Gen) multiTx(w *World) TxSpec {
 		}
 		n = len(msgs)
 		w.Fault("msg.register_and_use")
+		g.addGhost(kind, rm.NextID, signer)
+		if g.pct(30) {
+			// the wallet only estimates gas for it and never broadcasts
+			ts := TxSpec{Signer: signer, Gas: ampleGas * 2, Msgs: msgs, SimOnly: true}
+			g.setFee(w, &ts)
+			return ts
+		}
 	}
 	for tries := 0; len(msgs) < n && tries < 40; tries++ {
 		m := g.customMsg(w)
